@@ -65,9 +65,8 @@ theorem c06_cover (fwd : Bool) (x : K) (s : Seg K) (r : List (Seg K)) (hc : Chai
     · exact ne_of_lt hstrict
   · intro h1 h2
     have hex : ∃ a ∈ s :: r, hit t a = true := chain_cover_tol fwd x s r hc t h1 h2
-    obtain ⟨s', hf⟩ := Option.isSome_iff_exists.mp (List.find?_isSome.mpr hex)
-    have hm' : s' ∈ s :: r := List.mem_of_find?_eq_some hf
-    have hh' : hit t s' = true := List.find?_some hf
+    obtain ⟨s', hf⟩ := findSeg_complete (s :: r) t hex
+    obtain ⟨hm', hh'⟩ := findSeg_sound (s :: r) t s' hf
     refine ⟨s', hm', ?_, (hit_iff t s').mp hh'⟩
     unfold sol
     dsimp only
@@ -77,7 +76,6 @@ theorem c06_cover (fwd : Bool) (x : K) (s : Seg K) (r : List (Seg K)) (hc : Chai
       simp only [num_fmin, num_fmax, gt_iff_lt, not_or, not_lt]
       exact ⟨h1, h2⟩
     simp only [hno, if_false]
-    unfold findSeg
     rw [hf]
   · intro hout
     unfold sol
@@ -88,12 +86,26 @@ theorem c06_cover (fwd : Bool) (x : K) (s : Seg K) (r : List (Seg K)) (hc : Chai
       simpa only [num_fmin, num_fmax, gt_iff_lt] using hout
     simp only [this, if_true]
 
-/-- the evaluating segment is the first one (in step order) that contains `t` within the lookup tolerance -/
+/-- the evaluating segment is the first one (in step order) that contains `t`; if none contains it, the first one that
+    contains it within the lookup slack -/
 theorem c06_first_hit (segs : List (Seg K)) (t : K) (s : Seg K) (h : findSeg segs t = some s) :
-    hit t s = true ∧ ∃ before after, segs = before ++ s :: after ∧ ∀ a ∈ before, hit t a = false := by
+    hit t s = true ∧ ∃ before after, segs = before ++ s :: after ∧
+      ((hitExact t s = true ∧ ∀ a ∈ before, hitExact t a = false) ∨
+       ((∀ a ∈ segs, hitExact t a = false) ∧ ∀ a ∈ before, hit t a = false)) := by
+  have hs := findSeg_sound segs t s h
+  refine ⟨hs.2, ?_⟩
   unfold findSeg at h
-  obtain ⟨hh, before, after, hsplit, hb⟩ := List.find?_eq_some_iff_append.mp h
-  exact ⟨hh, before, after, hsplit, fun a ha => by simpa using hb a ha⟩
+  split at h
+  · rename_i s' hf
+    injection h with h; subst h
+    obtain ⟨hh, before, after, hsplit, hb⟩ := List.find?_eq_some_iff_append.mp hf
+    exact ⟨before, after, hsplit, Or.inl ⟨hh, fun a ha => by simpa using hb a ha⟩⟩
+  · rename_i hnone
+    obtain ⟨hh, before, after, hsplit, hb⟩ := List.find?_eq_some_iff_append.mp h
+    refine ⟨before, after, hsplit, Or.inr ⟨?_, fun a ha => by simpa using hb a ha⟩⟩
+    intro a ha
+    have := List.find?_eq_none.mp hnone a ha
+    simpa using this
 
 /-- `sol_many` on the segments of a run never reaches its `unwrap()` on `None`: it is OutOfRange if some point is
     outside the span and otherwise returns one value per point -/
